@@ -13,6 +13,7 @@ import (
 	"runtime"
 	"strconv"
 	"strings"
+	"sync"
 	"syscall"
 	"time"
 
@@ -46,10 +47,35 @@ var (
 	vpNativeOverride = map[string]bool{}
 	// vpAssertLog: messages of the assertions evaluated by the current native run.
 	vpAssertLog []string
+
+	// Native runs of harnesses that start goroutines: the harness API is called from several
+	// goroutines (stubs drawing inputs, assertions inside goroutines). vpMu guards the vector and
+	// the log; a failed assertion / assumption or an exhausted vector on a goroutine other than the
+	// harness's own must not panic there (nobody would recover it and the whole test process, with
+	// every other witness in it, would die): it is recorded and reported when the harness returns.
+	vpMu           sync.Mutex
+	vpHarnessGID   string
+	vpAsyncFailure string // first "violated: ..." recorded off the harness goroutine
+	vpAsyncAssume  bool
+	vpExhausted    bool
 )
 
+// vpGoID: the running goroutine's id as printed in stack traces (used on failure paths only).
+func vpGoID() string {
+	var buf [64]byte
+	n := runtime.Stack(buf[:], false)
+	f := strings.Fields(string(buf[:n]))
+	if len(f) >= 2 {
+		return f[1]
+	}
+	return ""
+}
+
 func vpSetup(vec []vpReplayVal, thorough bool, enable []string) {
+	vpMu.Lock()
 	vpVec, vpVecPos, vpTierThorough, vpAssertLog = vec, 0, thorough, nil
+	vpHarnessGID, vpAsyncFailure, vpAsyncAssume, vpExhausted = vpGoID(), "", false, false
+	vpMu.Unlock()
 	vpGoroutineBase = runtime.NumGoroutine()
 	vpNativeOverride = map[string]bool{}
 	for _, k := range enable {
@@ -97,11 +123,22 @@ type vpAssumeFailed struct{}
 type vpVectorExhausted struct{}
 
 func vpNextRaw() vpReplayVal {
+	vpMu.Lock()
 	if vpVecPos >= len(vpVec) {
-		panic(vpVectorExhausted{})
+		// the native run took a path that draws more inputs than the symbolic one: carry on with
+		// zeros (it is just another execution) and report the run as vector-exhausted at the end
+		vpExhausted = true
+		vpVecPos++
+		onHarness := vpGoID() == vpHarnessGID
+		vpMu.Unlock()
+		if onHarness {
+			panic(vpVectorExhausted{})
+		}
+		return vpReplayVal{V: "0"}
 	}
 	v := vpVec[vpVecPos]
 	vpVecPos++
+	vpMu.Unlock()
 	return v
 }
 
@@ -194,6 +231,16 @@ func vpRunOne(vec []vpReplayVal, thorough bool, enable []string, kind string, h 
 		}
 	}()
 	h()
+	vpMu.Lock()
+	defer vpMu.Unlock()
+	switch {
+	case vpAsyncFailure != "":
+		return "violated: " + vpAsyncFailure
+	case vpExhausted:
+		return "vector-exhausted (native run consumed more nondets than the symbolic path)"
+	case vpAsyncAssume:
+		return "assumption-failed (vector does not reach the assertion natively)"
+	}
 	return "passed"
 }
 
@@ -245,13 +292,29 @@ func nondetBytes(max int) []byte { return []byte(nondetString(max)) }
 
 func vpAssume(c bool) {
 	if !c {
+		if vpGoID() != vpHarnessGID {
+			vpMu.Lock()
+			vpAsyncAssume = true
+			vpMu.Unlock()
+			return // carried on regardless; the run is reported as assumption-failed
+		}
 		panic(vpAssumeFailed{})
 	}
 }
 
 func vpAssert(c bool, msg string) {
+	vpMu.Lock()
 	vpAssertLog = append(vpAssertLog, msg)
+	vpMu.Unlock()
 	if !c {
+		if vpGoID() != vpHarnessGID {
+			vpMu.Lock()
+			if vpAsyncFailure == "" {
+				vpAsyncFailure = msg
+			}
+			vpMu.Unlock()
+			return // the harness goroutine reports it when the harness returns
+		}
 		panic(vpAssertFailed{msg})
 	}
 }
